@@ -83,19 +83,17 @@ theorem quoteSpan_spec (q o cl : Char) (ho : QRel q o) (hcl : QRel q cl) (cs out
   | some p =>
     obtain ⟨content, r⟩ := p
     simp only [hs] at h
-    cases hk : suffixLen r with
-    | none => simp [hk] at h
-    | some k =>
-      simp only [hk] at h
-      have hcs := scanContent_spec _ _ _ cs content r hs
-      split at h
+    have hcs := scanContent_spec _ _ _ cs content r hs
+    split at h
+    · split at h
       · simp at h; obtain ⟨rfl, rfl⟩ := h
-        refine ⟨q :: content ++ q :: r.take k, ?_, QRelS.refl _⟩
-        rw [hcs]; simp [List.take_append_drop]
+        refine ⟨q :: content ++ [q], ?_, QRelS.refl _⟩
+        rw [hcs]; simp
       · simp at h; obtain ⟨rfl, rfl⟩ := h
-        refine ⟨q :: content ++ q :: r.take k, ?_, ?_⟩
-        · rw [hcs]; simp [List.take_append_drop]
-        · exact .cons ho ((QRelS.refl content).append (.cons hcl (QRelS.refl _)))
+        refine ⟨q :: content ++ [q], ?_, ?_⟩
+        · rw [hcs]; simp
+        · exact .cons ho ((QRelS.refl content).append (.cons hcl .nil))
+    · simp at h
 
 /-- A successful quote match rewrites its span pointwise and leaves the rest alone. -/
 theorem tryQuoteAt_spec (s out rest : Str) (h : tryQuoteAt s = some (out, rest)) :
